@@ -28,6 +28,8 @@ ASSUMPTIONS = [
 ]
 
 DELIMS = [" ", ",", "\t", ";", "|", ":"]  # documented as a single character
+# names of the members of a dict collection: plain, differing only after a dot, one looking like a file name
+COLL_KEYS = {"dict": ("first", "second"), "dict-dotted": ("v1.0", "v1.1"), "dict-ext": ("data", "data.json")}
 
 
 @st.composite
@@ -38,12 +40,12 @@ def cases(draw, tier):
     other = draw(nets.net_spec(cls=draw(st.sampled_from(["H", "DH", "SC"])), kind=kind, max_edges=3, nested=True))
     # text formats: also float node labels next to the (int) edge IDs, read back with nodetype=float
     tk = draw(st.integers(0, 7))
-    tkind = "float" if tk == 0 else ("uni" if tk == 1 else kind)  # "uni": non-ASCII string labels, for the encoding argument
+    tkind = "float" if tk == 0 else ("uni" if tk == 1 else ("brk" if tk == 2 else kind))  # "uni": non-ASCII labels (encoding); "brk": see nets
     txt = draw(nets.net_spec(cls="H", kind=tkind, max_edges=5, max_size=4, allow_empty=False, with_attrs=False, min_edges=1,
                              ids=draw(st.sampled_from(["auto", "perm", "gap", "str"]))))
     shape = draw(st.sampled_from([None, None, [1, 1], [1, 3], [3, 1], [2, 2]]))
     return {"spec": spec, "other": other, "text": txt, "delim": draw(st.sampled_from(DELIMS)), "shape": shape, "explicit_str": draw(st.booleans()),
-            "coll": draw(st.sampled_from(["list", "dict"])), "cname": draw(st.sampled_from(["", "c", "my_set"])),
+            "coll": draw(st.sampled_from(["list", "dict", "dict-dotted", "dict-ext"])), "cname": draw(st.sampled_from(["", "c", "my_set"])),
             "encoding": draw(st.sampled_from([None, None, "utf-8", "latin-1"])), "awkward": draw(st.integers(0, 3)) == 0,
             # casts asked of the HIF / JSON readers for nodes and for edges, independently (None = reader default)
             "casts": [draw(st.sampled_from([None, None, "str", "float"])), draw(st.sampled_from([None, None, "str", "float"]))], "default_delim": draw(st.integers(0, 5)) == 0}
@@ -122,7 +124,8 @@ def _run(case, ctx, tmp):
     # ---- HIF collection (list keys become positions, dict keys are kept)
     cdir = os.path.join(tmp, "coll")
     os.makedirs(cdir)
-    coll = [H, O] if case["coll"] == "list" else {"first": H, "second": O}
+    k1, k2 = COLL_KEYS.get(case["coll"], ("first", "second"))
+    coll = [H, O] if case["coll"] == "list" else {k1: H, k2: O}
     cname = case["cname"] or "x"
     ok, R = attempt(ctx, "hif_collection", lambda: (xgi.write_hif_collection(coll, cdir, collection_name=cname), xgi.read_hif_collection(os.path.join(cdir, cname + "_collection_information.json")))[1])
     if ok:
@@ -166,7 +169,7 @@ def _run(case, ctx, tmp):
             if (nt2, et2) == (nt, et):
                 jdir = os.path.join(tmp, "jcoll")
                 os.makedirs(jdir)
-                coll = [H, O2] if case["coll"] == "list" else {"first": H, "second": O2}
+                coll = [H, O2] if case["coll"] == "list" else {k1: H, k2: O2}
                 pre = (case["cname"] + "_") if case["cname"] else ""
                 ok, R = attempt(ctx, "json_collection", lambda: (xgi.write_json(coll, jdir, collection_name=case["cname"]), xgi.read_json(os.path.join(jdir, pre + "collection_information.json"), nodetype=nt, edgetype=et))[1])
                 if ok:
@@ -208,9 +211,11 @@ def _run(case, ctx, tmp):
     wk, rk = {"delimiter": delim}, {"delimiter": delim}
     if case.get("default_delim"):
         wk, rk, delim = {}, {}, "default"
-    if case.get("encoding"):
+    if case.get("encoding") and not (case["text"]["kind"] == "brk" and case["encoding"] == "latin-1"):  # U+2028 has no latin-1 form
         wk["encoding"] = rk["encoding"] = case["encoding"]
         ctx.event("encoding:" + case["encoding"])
+    if case["text"]["kind"] == "brk" and (case.get("default_delim") or delim in (" ", "\t", "default")):
+        return  # labels holding line-boundary characters are whitespace to a whitespace delimiter: not in its domain
     p = os.path.join(tmp, "e.txt")
     ok, R = attempt(ctx, "edgelist", lambda: (xgi.write_edgelist(T, p, **wk), xgi.read_edgelist(p, nodetype=nt, **rk))[1])
     if ok:
